@@ -72,6 +72,35 @@ open(p, "w").write(s)
 PY
 (cd "$R" && GOFLAGS=-mod=mod GOPROXY=off GOSUMDB=off GOTOOLCHAIN=local go build ./... && go test ./... >/dev/null 2>&1) || { echo "selftest: if/else variant does not build/pass"; fail=1; }
 quiet if-else C01
+# 1g the AST normalisation pass (DESIGN.md §11.15): helper gates with named constants; sha256.Sum256 with a slice;
+#    and the round-2 benign refactors that are re-proved (cosmetic ones of every file, the equivalent rewrite of
+#    bip39.go and of language_string.go)
+patchquiet() { # patch, property...
+  pf="$1"; shift
+  git -C "$R" checkout -q -- . && git -C "$R" clean -fdq
+  git -C "$R" apply "$pf" || { echo "selftest: $pf does not apply"; fail=1; return; }
+  quiet "$(basename $(dirname $pf))/$(basename $pf)" "$@"
+  git -C "$R" clean -fdq
+}
+patchquiet tools/probes/helper_gates_ok.diff C09
+patchquiet tools/probes/sum256_ok.diff C01 C03
+patchquiet seeded/benign2/bip39/patch1.diff C09
+patchquiet seeded/benign2/bip39/patch2.diff C09 C06
+patchquiet seeded/benign2/entropy/patch1.diff C01
+patchquiet seeded/benign2/mnemonic/patch1.diff C02
+patchquiet seeded/benign2/newm/patch1.diff C02 C04
+patchquiet seeded/benign2/seed/patch1.diff C04
+patchquiet seeded/benign2/lang/patch1.diff C13
+patchquiet seeded/benign2/langstring/patch1.diff C16
+patchquiet seeded/benign2/langstring/patch2.diff C16
+#    ... and the same kind of edit with a mistake in it must be reported
+for bad in tools/probes/helper_gate_mod2_bad.diff tools/probes/helper_swapped_args_bad.diff; do
+  git -C "$R" checkout -q -- . && git -C "$R" clean -fdq
+  git -C "$R" apply "$bad"
+  out=$(./check C09 quick 2>&1); rc=$?
+  if [ $rc -eq 1 ] && echo "$out" | grep -q '^VIOLATION'; then echo "reported $(basename $bad)"; else echo "MISSED $(basename $bad)"; fail=1; fi
+  git -C "$R" checkout -q -- . && git -C "$R" clean -fdq
+done
 # 2 seeded changes
 res=$(tools/mutants.sh "$R" seeded/C01/1 seeded/C03/2 seeded/C06/2 seeded/C09/2 seeded/C10/1 seeded/C13/2 seeded/C16/2 2>&1)
 echo "$res" | cut -c1-160
